@@ -28,6 +28,11 @@ func StartWatchdog(d time.Duration, what func() string) {
 				continue
 			}
 			if time.Since(since) > d {
+				if PausedWithin(d + 5*time.Second) {
+					// the machine stood still during the window (pause.go): start the window again
+					since = time.Now()
+					continue
+				}
 				desc := ""
 				if what != nil {
 					desc = what()
